@@ -90,6 +90,11 @@ func read[EntityT entity.Interface](def Definition, wrapper func(e *Entity) Enti
 		return *new(EntityT), err
 	}
 
+	return readCommit[EntityT](def, wrapper, repo, resolvers, rootHash, entity.RefToId(ref))
+}
+
+// readCommit fetch from git and decode the Entity with the given last commit, expected to have the given id.
+func readCommit[EntityT entity.Interface](def Definition, wrapper func(e *Entity) EntityT, repo repository.ClockedRepo, resolvers entity.Resolvers, rootHash repository.Hash, expectedId entity.Id) (EntityT, error) {
 	// Perform a breadth-first search to get a topological order of the DAG where we discover the
 	// parents commit and go back in time up to the chronological root
 
@@ -192,7 +197,7 @@ func read[EntityT entity.Interface](def Definition, wrapper func(e *Entity) Enti
 
 	// The clocks are fine, we witness them
 	for _, opp := range oppMap {
-		err = repo.Witness(fmt.Sprintf(creationClockPattern, def.Namespace), opp.CreateTime)
+		err := repo.Witness(fmt.Sprintf(creationClockPattern, def.Namespace), opp.CreateTime)
 		if err != nil {
 			return *new(EntityT), err
 		}
@@ -252,7 +257,7 @@ func read[EntityT entity.Interface](def Definition, wrapper func(e *Entity) Enti
 	if len(ops) == 0 {
 		return *new(EntityT), fmt.Errorf("entity has no operations")
 	}
-	if result.Id() != entity.RefToId(ref) {
+	if result.Id() != expectedId {
 		return *new(EntityT), fmt.Errorf("the ref name doesn't match the entity id")
 	}
 
